@@ -40,6 +40,9 @@ var (
 	KeyEC2 *Key
 )
 
+// InitKeys generates the process-wide key material once.
+func InitKeys() { initKeys() }
+
 func initKeys() {
 	keyOnce.Do(func() {
 		mk := func(kid string) *Key {
